@@ -854,10 +854,8 @@ class Builder:
                 sub = dict(zip(tparams, spec[5] if spec[5] is not None else [ANY] * len(tparams)))
                 sub = {n: _subst(a, tv) for n, a in sub.items()}
             cols = [(f[0], self.values(f[1], sub if tparams else tv)) for f in spec[3]]
-            out = []
-            for pick in (0, -1):
-                out.append(cls(**{n: vs[pick] for n, vs in cols}))
-            return out
+            # instance i takes the i-th canonical value of every field, so each field value is used at least once
+            return [cls(**{n: vs[i % len(vs)] for n, vs in cols}) for i in range(min(5, max(len(vs) for _, vs in cols)))]
         raise env.HarnessError(f"unknown spec {spec!r}")
 
     # ---- structural conformance of a runtime value to a type
@@ -1220,12 +1218,12 @@ def _pool():
         # concrete iterables
         list_int, g("list", INT, sp="b"), list_str, g("list", BOOL), bare("list", "b"), g("list", ANY),
         g("tuple", INT), g("tuplef", INT, STR), g("set", INT), g("frozenset", INT), g("deque", INT),
-        g("list", list_int),
+        g("list", list_int), g("list", opt(INT)), g("list", un(INT, STR)),
         # abstract collections
         g("Sequence", INT), g("Sequence", STR), bare("Sequence"), g("Iterable", INT), g("AbstractSet", INT),
         # dicts
         g("dict", STR, INT), g("dict", STR, STR), g("dict", STR, BOOL), bare("dict", "b"), g("Mapping", STR, INT),
-        bare("Mapping"), g("defaultdict", STR, INT),
+        bare("Mapping"), g("defaultdict", STR, INT), g("dict", INT, INT),
         # optionals and unions
         opt(INT), opt(STR), opt(BOOL), opt(list_int), opt(list_str), un(INT, STR), un(INT, STR, NONE),
         un(INT, sc("bytes"), NONE), un(list_int, STR), un(list_int, list_str), un(list_int, INT, NONE),
